@@ -1,0 +1,16 @@
+//go:build verif
+
+package mbapp
+
+import "math"
+
+// Verification hooks (build tag verif).
+
+// VerifHoldPartials keeps the periodic cleanup from dropping partial messages,
+// so that a test driver decides which fragments arrive (the cleanup loop runs
+// its first pass at an arbitrary moment after New).
+func (s *Swarm[A, Pub]) VerifHoldPartials() {
+	s.fragLayer.mu.Lock()
+	s.fragLayer.ttl = math.MaxInt64
+	s.fragLayer.mu.Unlock()
+}
